@@ -25,7 +25,16 @@ BuildOk(c) ==
        /\ c.ft = (IF c.npdu <= 15 THEN 1 ELSE 0)            \* 'standard' exactly when the NPDU is at most 15 octets
        /\ c.at = c.group                                     \* the address type bit matches the destination
        /\ c.lenfield = c.npdu /\ c.same = 1
-  ELSE c.out = "refused"                                     \* longer APDUs and hop counts outside 0..7 are rejected
+       /\ c.held = 1
+  ELSE c.out = "refused" /\ c.held = 1                       \* longer APDUs and hop counts outside 0..7 are rejected
+\* held = 1: the frame built before this one still serialises to the octets it gave then - frames do not share their control fields.
+\* The rule is one for the three ways a frame object comes about (from a telegram; made directly; its APDU replaced afterwards, which
+\* is what securing a frame does): what is refused is decided where the octets are written.
+\* ---- a frame made from a telegram and not touched: system priority for point-to-point and broadcast, low for group communication;
+\*      no repetition, no acknowledge request, hop count 6, not a system broadcast, no error bit
+AsMadeOk(c) ==
+  /\ c.prio = (IF c.kind \in {"group", "taggroup"} THEN 3 ELSE 0)
+  /\ c.rep = 0 /\ c.ack = 0 /\ c.hop = 6 /\ c.sysb = 0 /\ c.cerr = 0
 \* reserved application-layer bits: the table of Apci.tla (C05), positions relative to the APDU (octet 0 = TPCI / APCI high octet)
 A == INSTANCE Apci
 \* ---- C13: re-serialising a received frame.  diff = positions (octet, bit 7..0) where the octets differ;
